@@ -535,7 +535,7 @@ class PyCdlib:
                  'rock_ridge', '_always_consistent', '_has_udf', 'joliet_vd',
                  'eltorito_boot_catalog', 'isohybrid_mbr', '_managing_fp', 'xa',
                  '_needs_reshuffle', '_rr_moved_record', '_rr_moved_name',
-                 '_rr_moved_rr_name', 'enhanced_vd', 'version_vd', 'inodes',
+                 '_rr_moved_rr_name', 'enhanced_vd', '_iso_size', 'version_vd', 'inodes',
                  'interchange_level', '_write_check_list', '_track_writes',
                  'udf_beas', 'udf_nsr', 'udf_teas', 'udf_anchors',
                  'udf_main_descs', 'udf_reserve_descs',
@@ -556,6 +556,7 @@ class PyCdlib:
          Nothing.
         """
         self._cdfp = io.BytesIO()  # type: IO[Any]
+        self._iso_size = -1
         self.svds = []  # type: List[headervd.PrimaryOrSupplementaryVD]
         self.brs = []  # type: List[headervd.BootRecord]
         self.vdsts = []  # type: List[headervd.VolumeDescriptorSetTerminator]
@@ -691,6 +692,27 @@ class PyCdlib:
 
         if not self.vdsts:
             raise pycdlibexception.PyCdlibInvalidISO('Valid ISO9660 filesystems must have at least one Volume Descriptor Set Terminator')
+
+    def _read_from_iso(self, length):
+        # type: (int) -> bytes
+        """
+        An internal method to read a structure whose length was itself read
+        off of the ISO.  No structure can be longer than the whole ISO, so a
+        larger length means that the ISO is damaged (and must not make us ask
+        the file object for gigabytes).
+
+        Parameters:
+         length - The number of bytes to read.
+        Returns:
+         The data that was read.
+        """
+        if self._iso_size < 0:
+            # Finding out the size can be expensive (see _get_iso_size), so
+            # only do it once per ISO.
+            self._iso_size = self._get_iso_size()
+        if length > self._iso_size:
+            raise pycdlibexception.PyCdlibInvalidISO('A length recorded on the ISO is larger than the ISO itself')
+        return self._cdfp.read(length)
 
     def _seek_to_extent(self, extent):
         # type: (int) -> None
@@ -1130,7 +1152,7 @@ class PyCdlib:
                     orig_pos = cdfp.tell()
                     self._seek_to_extent(ce_record.bl_cont_area)
                     cdfp.seek(ce_record.offset_cont_area, os.SEEK_CUR)
-                    con_block = cdfp.read(ce_record.len_cont_area)
+                    con_block = self._read_from_iso(ce_record.len_cont_area)
                     new_record.rock_ridge.parse(con_block, False,
                                                 new_record.rock_ridge.bytes_to_skip,
                                                 True, new_record.file_identifier())
@@ -1223,7 +1245,7 @@ class PyCdlib:
         """
         self._seek_to_extent(extent)
         old = self._cdfp.tell()
-        data = self._cdfp.read(ptr_size)
+        data = self._read_from_iso(ptr_size)
         offset = 0
         out = []
         extent_to_ptr = {}
@@ -2004,7 +2026,7 @@ class PyCdlib:
          The UDFDescriptorSequence object that stores parsed objects.
         """
         self._seek_to_extent(udf_extent_ad.extent_location)
-        vd_data = self._cdfp.read(udf_extent_ad.extent_length)
+        vd_data = self._read_from_iso(udf_extent_ad.extent_length)
 
         return udfmod.parse_udf_vol_descs(vd_data, udf_extent_ad.extent_location,
                                           self.logical_block_size)
@@ -2028,14 +2050,17 @@ class PyCdlib:
         # actually check what the PVD tells us is the end, but also the end of
         # the physical space on the ISO.  We'll preserve as many as we find,
         # with a minimum of two for a valid ISO.
-        self._cdfp.seek(0, os.SEEK_END)
-        last_physical_extent = (self._cdfp.tell() // self.logical_block_size) - 1
+        last_physical_extent = (self._get_iso_size() // self.logical_block_size) - 1
         last_pvd_extent = self.pvd.space_size - 1
         potential_anchor_locations = {256, last_pvd_extent - 256,
                                       last_pvd_extent, last_physical_extent,
                                       last_physical_extent - 256}
 
         for loc in potential_anchor_locations:
+            if loc < 0:
+                # The ISO is shorter than the distance of this anchor from
+                # the end.
+                continue
             self._seek_to_extent(loc)
             potential_anchor_data = self._cdfp.read(self.logical_block_size)
             potential_anchor = udfmod.parse_anchor(potential_anchor_data, loc)
@@ -2068,7 +2093,7 @@ class PyCdlib:
         if self.udf_main_descs.logical_volumes[0].integrity_sequence.extent_length > 0:
             # Parse the Logical Volume Integrity Sequence.
             self._seek_to_extent(self.udf_main_descs.logical_volumes[0].integrity_sequence.extent_location)
-            integrity_data = self._cdfp.read(self.udf_main_descs.logical_volumes[0].integrity_sequence.extent_length)
+            integrity_data = self._read_from_iso(self.udf_main_descs.logical_volumes[0].integrity_sequence.extent_length)
 
             ulvi, ulvi_term = udfmod.parse_logical_volume_integrity(integrity_data,
                                                                     self.udf_main_descs.logical_volumes[0].integrity_sequence.extent_location,
@@ -2101,7 +2126,7 @@ class PyCdlib:
 
         abs_file_entry_extent = part_start + self.udf_file_set.root_dir_icb.log_block_num
         self._seek_to_extent(abs_file_entry_extent)
-        icbdata = self._cdfp.read(self.udf_file_set.root_dir_icb.extent_length)
+        icbdata = self._read_from_iso(self.udf_file_set.root_dir_icb.extent_length)
         self.udf_root = udfmod.parse_file_entry(icbdata,
                                                 abs_file_entry_extent,
                                                 self.udf_file_set.root_dir_icb.log_block_num,
@@ -2119,7 +2144,7 @@ class PyCdlib:
                 abs_file_ident_extent = part_start + desc.log_block_num
                 self._seek_to_extent(abs_file_ident_extent)
                 self._cdfp.seek(desc.offset, 1)
-                data = self._cdfp.read(desc.extent_length)
+                data = self._read_from_iso(desc.extent_length)
                 offset = 0
                 while offset < len(data):
                     current_extent = (abs_file_ident_extent * self.logical_block_size + offset) // self.logical_block_size
@@ -2137,7 +2162,7 @@ class PyCdlib:
 
                     abs_file_entry_extent = part_start + file_ident.icb.log_block_num
                     self._seek_to_extent(abs_file_entry_extent)
-                    icbdata = self._cdfp.read(file_ident.icb.extent_length)
+                    icbdata = self._read_from_iso(file_ident.icb.extent_length)
                     next_entry = udfmod.parse_file_entry(icbdata,
                                                          abs_file_entry_extent,
                                                          file_ident.icb.log_block_num,
@@ -2217,6 +2242,7 @@ class PyCdlib:
             fp = utils.Win32RawDevice(fp.name)
 
         self._cdfp = fp
+        self._iso_size = -1
 
         # Get the Primary Volume Descriptor (pvd), the set of Supplementary
         # Volume Descriptors (svds), the set of Volume Partition
@@ -2240,7 +2266,7 @@ class PyCdlib:
                 tmp_isohybrid.parse_secondary_gpt_header(self._cdfp.read(512))
 
                 self._cdfp.seek((tmp_isohybrid.secondary_gpt.header.current_lba * 512) - (tmp_isohybrid.secondary_gpt.header.num_parts * 128))
-                tmp_isohybrid.parse_secondary_gpt_partitions(self._cdfp.read(tmp_isohybrid.secondary_gpt.header.num_parts * 128))
+                tmp_isohybrid.parse_secondary_gpt_partitions(self._read_from_iso(tmp_isohybrid.secondary_gpt.header.num_parts * 128))
 
             # We only save the object if it turns out to be a valid IsoHybrid.
             self.isohybrid_mbr = tmp_isohybrid
